@@ -13,7 +13,10 @@
                             definitions.messages (missing -> Exception)
      Binding.do_resolve     the portType is looked up (missing -> Exception) and
                             resolved; every binding operation takes the parts of the
-                            portType operation of the same name (missing -> MethodNotFound)
+                            portType operation of the same name (missing -> MethodNotFound):
+                            all of the input (output) message's parts, or, when the
+                            input (output) soap:body has a parts= list, those of them
+                            whose name is in the list
      Service.do_resolve     every port's binding is looked up (missing -> Exception);
                             ports of non-SOAP bindings are dropped
      set_wrapped            for every operation of every binding, input and output:
@@ -30,12 +33,16 @@ Record wpart := mkPart { pt_name : N; pt_element : option qn; pt_type : option q
 
 Record ptop := mkPtOp { po_name : N; po_in : option qn; po_out : option qn }.
 
+(* a binding operation: name and the parts= lists of its input / output soap:body
+   (None: no parts attribute) *)
+Record bop := mkBOp { bo_name : N; bo_in : option (list N); bo_out : option (list N) }.
+
 Inductive wchild :=
 | WImport
 | WTypes
 | WMessage (nm : N) (parts : list wpart)
 | WPortType (nm : N) (ops : list ptop)
-| WBinding (nm : N) (ty : qn) (soap : bool) (ops : list N)
+| WBinding (nm : N) (ty : qn) (soap : bool) (ops : list bop)
 | WService (nm : N) (ports : list (N * qn)).
 
 Inductive wkind := WKMessage | WKPortType | WKBinding | WKService | WKOther.
@@ -142,14 +149,23 @@ Definition wrapped_flag (parts : list wpart) : option bool :=
 (* one linked operation: name, input parts + wrapped, output parts + wrapped *)
 Definition lop := (N * (list wpart * bool) * (list wpart * bool))%type.
 
-Definition link_op (ptops : list ptop) (n : N) : option lop :=
-  match find_ptop n ptops with
+(* __resolvesoapbody: `if parts: [p for p in message.parts if p.name in parts] else message.parts` *)
+Definition select_parts (sel : option (list N)) (parts : list wpart) : list wpart :=
+  match sel with
+  | None | Some [] => parts
+  | Some l => filter (fun p => existsb (N.eqb (pt_name p)) l) parts
+  end.
+
+Definition link_op (ptops : list ptop) (b : bop) : option lop :=
+  match find_ptop (bo_name b) ptops with
   | None => None                                            (* MethodNotFound *)
   | Some o =>
       match message_parts (po_in o), message_parts (po_out o) with
-      | Some pi, Some po =>
+      | Some mi, Some mo =>
+          let pi := select_parts (bo_in b) mi in
+          let po := select_parts (bo_out b) mo in
           match wrapped_flag pi, wrapped_flag po with
-          | Some wi, Some wo => Some (n, (pi, wi), (po, wo))
+          | Some wi, Some wo => Some (bo_name b, (pi, wi), (po, wo))
           | _, _ => None
           end
       | _, _ => None
@@ -164,7 +180,7 @@ Fixpoint all_some {A} (l : list (option A)) : option (list A) :=
   end.
 
 (* Binding.do_resolve + set_wrapped *)
-Definition link_binding (ty : qn) (ops : list N) : option (list lop) :=
+Definition link_binding (ty : qn) (ops : list bop) : option (list lop) :=
   match wlookup WKPortType ty ch with
   | Some (WPortType _ ptops) =>
       if porttype_ok ptops then all_some (map (link_op ptops) ops) else None
